@@ -9,10 +9,18 @@
 namespace ys {
 
 namespace {
+// one generator object per policy and simulated process
+template<class P>
+yorel::yomm2::generator& process_generator() {
+    static yorel::yomm2::generator gen;
+    return gen;
+}
+
 template<class P, std::size_t... S>
-std::string offsets_of(int slot, std::index_sequence<S...>) {
+std::string offsets_of(int slot, bool fresh, std::index_sequence<S...>) {
     std::ostringstream os;
-    yorel::yomm2::generator gen;
+    yorel::yomm2::generator local;
+    yorel::yomm2::generator& gen = fresh ? local : process_generator<P>();
     if (slot < 0) {
         gen.write_static_offsets<P>(os);
     } else {
@@ -28,14 +36,20 @@ std::string offsets_of(int slot, std::index_sequence<S...>) {
 } // namespace
 
 template<class P>
-std::string glue_offsets(int slot) {
-    return offsets_of<P>(slot, std::make_index_sequence<NSLOTS>());
+std::string glue_offsets(int slot, bool fresh) {
+    return offsets_of<P>(slot, fresh, std::make_index_sequence<NSLOTS>());
 }
 
 template<class P>
-std::string glue_offsets_policy() {
+void glue_new_generator() {
+    process_generator<P>() = yorel::yomm2::generator();
+}
+
+template<class P>
+std::string glue_offsets_policy(bool fresh) {
     std::ostringstream os;
-    yorel::yomm2::generator gen;
+    yorel::yomm2::generator local;
+    yorel::yomm2::generator& gen = fresh ? local : process_generator<P>();
     gen.write_static_offsets<P>(os);
     return os.str();
 }
@@ -49,7 +63,8 @@ std::string glue_encode(
 }
 
 #define YS_GLUE(P)                                                            \
-    template std::string glue_offsets<pol::P>(int);                           \
+    template std::string glue_offsets<pol::P>(int, bool);                     \
+    template void glue_new_generator<pol::P>();                               \
     template std::string glue_encode<pol::P>(                                 \
         const yorel::yomm2::detail::compiler<pol::P>&, const char*);
 YS_GLUE(sdbg)
@@ -58,7 +73,8 @@ YS_GLUE(sofd)
 YS_GLUE(sofr)
 
 #define YS_GLUE_TW(P)                                                         \
-    template std::string glue_offsets_policy<P>();                            \
+    template std::string glue_offsets_policy<P>(bool);                        \
+    template void glue_new_generator<P>();                                    \
     template std::string glue_encode<P>(                                      \
         const yorel::yomm2::detail::compiler<P>&, const char*);
 YS_GLUE_TW(tw_dbg)
